@@ -3,7 +3,7 @@
    `exported tg k t` evaluates the Jinja expression from which target tg's template renders constant k (template scan,
    Generated/Gen_C05.v) with the T2-translated filters; `filter_*`, `get_best_fit` are the translated functions of /repo. *)
 From Coq Require Import List NArith ZArith Bool.
-From Verif Require Import Str Wire WireThm Walker MetaC05Base Gen_C05 MetaC05 MetaC05Thm MetaC05LitThm MetaC05StoThm.
+From Verif Require Import Str Wire WireThm Walker MetaC05Base Gen_C05 MetaC05 WalkerSafe MetaC05Thm MetaC05LitThm MetaC05StoThm MetaC05Float MetaC05FltThm MetaC05TightThm.
 Import ListNotations.
 Local Open Scope Z_scope.
 
@@ -61,6 +61,14 @@ Theorem c05_ser_buffer_suffices : forall tg t v q, In tg buffer_targets -> wf_ty
 Proof. exact ser_buffer_suffices. Qed.
 Print Assumptions c05_ser_buffer_suffices.
 
+(* TIGHTNESS: the advertised serialization buffer size is attained -- for every well-formed type whose nested delimited types have
+   no slack there is a valid value whose serialization is exactly bmax t bits long (so the exported constant is the maximum, not just
+   an upper bound; with slack the outer bound includes the nested extent that DSDL reserves for future versions) *)
+Theorem c05_bmax_tight : forall t, wf_ty t = true -> noslack t = true ->
+  exists v b, enc_body t v = Ok b /\ length b = bmax t /\ valid_val t v = true.
+Proof. exact bmax_tight. Qed.
+Print Assumptions c05_bmax_tight.
+
 (* advertised buffer size <= advertised extent *)
 Theorem c05_max_le_extent : forall tg t qb qe, In tg buffer_targets -> wf_ty t = true -> is_comp t = true ->
   exported tg KBufferBytes t = Some qb -> exported tg KExtentBytes t = Some qe -> 0 <= qb <= qe.
@@ -76,17 +84,14 @@ Theorem c05_cpp_capcheck_is_spec : forall t v cap, ser_model cpp_capcheck t v ca
 Proof. exact cpp_capcheck_is_spec. Qed.
 Print Assumptions c05_cpp_capcheck_is_spec.
 
-(* a buffer smaller than the advertised size is refused with too_small for every value, by the specification and by the code
-   walker with any primitives, and the walker has not touched the buffer *)
-Theorem c05_too_small_refused : forall tg P t v buf cap q, In tg buffer_targets -> is_comp t = true ->
-  exported tg KBufferBytes t = Some q -> Z.of_nat cap < q ->
-  ser_spec t v cap = Err ETooSmall /\ walk_ser P t v buf cap = Err ETooSmall /\ walk_ser_st P t v buf cap = (Err ETooSmall, Some buf).
+(* a buffer smaller than the advertised size is refused with too_small for every value, by the specification, by the code walker with
+   any primitives, and by C04's instrumented walker with an EMPTY access log (nothing read or written: Codec/WalkerSafeThm.v
+   too_small_no_write, also stated as c04_too_small_no_write) *)
+Theorem c05_too_small_refused : forall tg P c t v o buf cap q, In tg buffer_targets -> is_comp t = true ->
+  exported tg KBufferBytes t = Some q -> Z.of_nat cap < q -> up_front c = true ->
+  ser_spec t v cap = Err ETooSmall /\ walk_ser P t v buf cap = Err ETooSmall /\ walk_ser_safe c t o cap = (Err ETooSmall, []).
 Proof. exact too_small_refused. Qed.
 Print Assumptions c05_too_small_refused.
-
-Theorem c05_walk_ser_st_is_walker : forall P t v buf cap, fst (walk_ser_st P t v buf cap) = walk_ser P t v buf cap.
-Proof. exact walk_ser_st_fst. Qed.
-Print Assumptions c05_walk_ser_st_is_walker.
 
 (* ... and only then *)
 Theorem c05_too_small_iff : forall tg t v cap q, In tg buffer_targets -> is_comp t = true ->
@@ -107,11 +112,6 @@ Print Assumptions c05_int_literal_denotes.
 Theorem c05_int_literal_guard : forall unsigned w, filter_literal_int_guard (int_pty unsigned w) = true.
 Proof. exact int_literal_guard. Qed.
 Print Assumptions c05_int_literal_guard.
-
-(* documentation of the repaired defect F-INT64MIN: the plain spelling is diagnosed in every data model *)
-Theorem c05_int64_min_plain_literal_refuted : forall dm, In dm dmodels -> c_token_denotes dm old_int64_min_token = None.
-Proof. exact int64_min_plain_literal_refuted. Qed.
-Print Assumptions c05_int64_min_plain_literal_refuted.
 
 (* floating-point constants.  `rf` stands for Python's repr(float(Fraction)) -- ASSUMED (library behaviour, not modelled) to return
    the shortest decimal that reads back as the double nearest to the rational; the check validates on every run that the string it
@@ -140,14 +140,6 @@ Theorem c05_float_integral_operand_in_range : forall rf n, Z.abs n < dbl_lit_lim
   const_float_rational rf n 1 = Some (n, 1) /\ float_lit_overflows n 1 = false.
 Proof. exact float_integral_operand_in_range. Qed.
 Print Assumptions c05_float_integral_operand_in_range.
-
-(* documentation of the repaired defect F-FLOAT-LIT-RANGE (what the code did before bc63e58): the old rendering of DBL_MIN written in
-   decimal had an operand outside the range of double; the repaired code hands that constant to the oracle *)
-Theorem c05_float_operands_in_range_refuted : exists n d,
-  0 < d /\ d <= n * 2 ^ 1022 /\ n < d /\ parse_fexpr (old_filter_literal_float_expr (n, d)) = Some (n, d) /\
-  old_const_float_operands_in_range n d = false /\ (forall rf, const_float_expr rf n d = rf (n, d)).
-Proof. exact float_operands_in_range_refuted. Qed.
-Print Assumptions c05_float_operands_in_range_refuted.
 
 (* emit conditions: every constant is rendered under the `has_*` / loop condition it needs, never under a truthiness test *)
 Theorem c05_emit_ok : emit_ok = true.
@@ -213,6 +205,65 @@ Theorem c05_cast_formats_pinned :
 Proof. exact cast_formats_pinned. Qed.
 Print Assumptions c05_cast_formats_pinned.
 
+(* ---- the VALUE of floating-point constants (exact integer model of round-to-nearest-even, Gen/MetaC05Float.v) ----
+   c_eval64: N.0 and D.0 are rounded to double by the compiler, then one IEEE division; or the single decimal constant.
+   REFUTED: "within one ulp of the correctly rounded rational" does not hold for float64 divisions with inexact operands
+   (finding F-FLOAT-OPERAND-ROUNDING, witness evaluates two ulps off; reproduced on the generated C with gcc and clang) *)
+Theorem c05_float64_one_ulp_refuted : exists n d,
+  0 < d /\ d <> 1 /\ division_rendered n d = true /\
+  forall rf, exists x, c_eval64 rf n d = Some x /\ ford binary64 x - ford binary64 (rne binary64 n d) = 2.
+Proof. exact float64_one_ulp_refuted. Qed.
+Print Assumptions c05_float64_one_ulp_refuted.
+
+(* the strongest true statements: the exported double is exactly the correctly rounded rational when the constant is integral, ... *)
+Theorem c05_float64_integral_correct : forall rf n, c_eval64 rf n 1 = Some (rne binary64 n 1).
+Proof. exact float64_integral_correct. Qed.
+Print Assumptions c05_float64_integral_correct.
+
+(* ... when both operands of the division are exactly representable doubles (exact64: decidable, evaluated by the check), ... *)
+Theorem c05_float64_exact_operands_correct : forall rf n d, 0 < d -> d <> 1 -> division_rendered n d = true ->
+  exact64 n = true -> exact64 d = true -> c_eval64 rf n d = Some (rne binary64 n d).
+Proof. exact float64_exact_operands_correct. Qed.
+Print Assumptions c05_float64_exact_operands_correct.
+
+(* ... and when the oracle's decimal constant is rendered and its certificate, CHECKED IN COQ (the constant parses and its exact value
+   rounds to the same double as n/d), holds; assumed: the compiler rounds a decimal constant correctly *)
+Theorem c05_float64_oracle_certified_correct : forall rf n d, d <> 1 -> division_rendered n d = false ->
+  oracle_certified rf n d = true ->
+  const_float_expr rf n d = rf (n, d) /\
+  exists x, c_eval64 rf n d = Some x /\ fbits binary64 x = fbits binary64 (rne binary64 n d).
+Proof. exact float64_oracle_certified_correct. Qed.
+Print Assumptions c05_float64_oracle_certified_correct.
+
+(* ---- boolean constants, full name and version, Python class constants ---- *)
+Theorem c05_bool_literal_denotes : forall b,
+  bool_token_denotes (filter_literal_bool c_lang b) = Some b /\ bool_token_denotes (filter_literal_bool cpp_lang b) = Some b.
+Proof. exact bool_literal_denotes. Qed.
+Print Assumptions c05_bool_literal_denotes.
+
+(* the strings rendered for _FULL_NAME_ and _FULL_NAME_AND_VERSION_ (scanned string templates evaluated on the type's name data) *)
+Theorem c05_c_full_name_exact : forall m,
+  c_full_name m = Some (tm_full_name m) /\
+  c_full_name_and_version m = Some (tm_full_name m ++ [46%N] ++ py_str_int (tm_major m) ++ [46%N] ++ py_str_int (tm_minor m)).
+Proof. exact c_full_name_exact. Qed.
+Print Assumptions c05_c_full_name_exact.
+
+(* Python class constants (scanned from py/templates/base.j2): integers read back exactly, floats are `N / D` on ints (correctly
+   rounded by CPython: assumed), booleans are True / False *)
+Theorem c05_py_int_const_denotes : forall z, exists s, py_const_token (CVInt z) = Some s /\ z_of_dec s = z.
+Proof. exact py_int_const_denotes. Qed.
+Print Assumptions c05_py_int_const_denotes.
+
+Theorem c05_py_float_const_exact : forall n d,
+  py_const_token (CVFrac n d) = Some (py_str_int n ++ [32; 47; 32]%N ++ py_str_int d) /\
+  z_of_dec (py_str_int n) = n /\ z_of_dec (py_str_int d) = d.
+Proof. exact py_float_const_exact. Qed.
+Print Assumptions c05_py_float_const_exact.
+
+Theorem c05_py_bool_const_exact : forall b, py_const_token (CVBool b) = Some (if b then s_True else s_False).
+Proof. exact py_bool_const_exact. Qed.
+Print Assumptions c05_py_bool_const_exact.
+
 (* non-vacuity *)
 Definition ex05_inner : ty := TComp false [TPrim (PU 3 true); TVar (TPrim (PS 13 true)) 300] (Some 4912%nat).
 Definition ex05_outer : ty := TComp true [TPrim (PF 16 true); ex05_inner; TFix (TPrim PBool) 9] None.
@@ -222,6 +273,9 @@ Example c05_example_exports :
   exported TgtC KExtentBytes ex05_inner = Some 614 /\ exported TgtC KBufferBytes ex05_inner = Some 490 /\
   exported TgtCpp KBufferBytes ex05_outer = Some 619 /\ exported TgtPy KExtentBytes ex05_outer = Some 619 /\
   exported TgtC KUnionCount ex05_outer = Some 3 /\ exported TgtC KCap (TVar (TPrim (PS 13 true)) 300) = Some 300.
+Proof. vm_compute. repeat split; reflexivity. Qed.
+Example c05_example_tight : wf_ty ex05_outer = true /\ noslack ex05_outer = false /\
+  noslack (TComp true [TPrim (PF 16 true); TVar (TPrim (PS 13 true)) 300; TFix (TPrim PBool) 9] None) = true.
 Proof. vm_compute. repeat split; reflexivity. Qed.
 Example c05_example_too_small :
   ser_spec ex05_outer (VUnion 0 (VFlt 0%N)) 618 = Err ETooSmall /\ exists b, ser_spec ex05_outer (VUnion 0 (VFlt 0%N)) 619 = Ok b.
